@@ -171,9 +171,6 @@ def run(prop, tier):
                 rep.count_case(v["program"], nontrivial)
                 rep.cov["traces_validated_against_impl"] += 1
                 if v["clause"]:
-                    if v["clause"].startswith("resumption_ended_early") or v["clause"] == "body_step_order":
-                        # the abstract applicability filter and the real protocol disagree on an inapplicable operation: harness issue
-                        raise MachineryFailure("program not applicable: %s at %s: %s" % (v["clause"], v["at"], json.dumps(v["program"])))
                     rep.violation("decorated generator diverges from Gen.tla: clause %s at event %s (%s)" % (v["clause"], v["at"], source),
                                   {"engine": "gen", "module": "checks_c15", "clause": v["clause"], "at": v["at"], "program": v["program"],
                                    "trace": v["trace"]["ev"]})
